@@ -302,7 +302,7 @@ fn txs(n: usize, tag: u64) -> Vec<u8> {
 }
 
 /// Draws a block shape; returns the slices (well-formed unless `malform` says otherwise).
-fn draw_block(slot: u64, max_slices: usize, malform: &Malform) -> Vec<Slice> {
+pub fn draw_block(slot: u64, max_slices: usize, malform: &Malform) -> Vec<Slice> {
     let n_slices = 1 + kernel::choose(G, max_slices as u64) as usize;
     let parent: BlockId = (Slot::new(kernel::choose(G, slot)), wire::synth_hash(0, 1 + kernel::choose(G, 3)));
     let switch_at = if n_slices >= 2 && kernel::choose(G, 3) == 0 { Some(1 + kernel::choose(G, (n_slices - 1) as u64) as usize) } else { None };
